@@ -42,8 +42,12 @@ Definition fld_ok (needs_static : bool) (marker : sfield -> bool) (f : sfield) :
 (* ---- what the macro accepts.  [size_of_T]: what size_of::<T>() is for the compiler (the emitted
    padding assertion compares it with the sum of the field sizes — unless the user's type captured
    the name of the local helper type, in which case the assertion compares the helper with itself) ---- *)
-Definition padding_assert_passes (d : sdef) (size_of_T : N) : bool :=
+(* the assertion as the pinned tree emitted it: through a local helper struct named
+   `TypeWithoutPadding`, which a user type of that name captured (the repaired defect) *)
+Definition padding_assert_passes_pinned (d : sdef) (size_of_T : N) : bool :=
   sd_captures_padding_name d || (size_of_T =? total_size d).
+(* the repaired assertion: transmute to a byte array, no name involved *)
+Definition padding_assert_passes (d : sdef) (size_of_T : N) : bool := size_of_T =? total_size d.
 
 Definition derive_accepts (dv : derive) (d : sdef) (size_of_T : N) : bool :=
   match dv with
@@ -140,14 +144,14 @@ Proof. unfold total_size, sum_sizes. induction (sd_fields d) as [|f r IH]; cbn; 
 Definition aligns_pos (d : sdef) : Prop := Forall (fun f => sf_align f <> 0) (sd_fields d).
 
 (* ---- soundness of the macro's decision: whatever it accepts (and rustc then compiles) meets the
-   trait's contract — PROVIDED the type's name does not capture the helper type of the padding
-   assertion.  Without that proviso the statement is false: see padding_name_capture_refuted. ---- *)
+   trait's contract, whatever the type is called.  (For the pinned tree this needed the proviso that
+   the name does not capture the assertion's helper type: see padding_name_capture_refuted.) ---- *)
 Theorem accepts_sound dv d sz :
-  sd_captures_padding_name d = false -> aligns_pos d -> rustc_size d sz ->
+  aligns_pos d -> rustc_size d sz ->
   derive_accepts dv d sz = true -> contract_ok dv d sz = true.
 Proof.
-  intros Hc Hal [Htr HC].
-  destruct dv; unfold derive_accepts, contract_ok, padding_assert_passes, defined_layout, no_padding; rewrite ?Hc; cbn [orb].
+  intros Hal [Htr HC].
+  destruct dv; unfold derive_accepts, contract_ok, padding_assert_passes, defined_layout, no_padding.
   - rewrite !andb_true_iff. intros ((((H1 & H2) & H3) & H4) & H5).
     assert (Hsz : (sz =? total_size d) = true).
     { destruct (sd_transparent d) eqn:Et.
@@ -171,18 +175,17 @@ Proof.
   destruct dv; unfold documented_ok, derive_accepts, contract_ok, padding_assert_passes, defined_layout, no_padding.
   - rewrite !andb_true_iff. intros ((((H1 & H2) & H3) & H4) & H5). rewrite H3, orb_true_r.
     repeat split; try assumption.
-    + rewrite orb_true_iff in H5. rewrite orb_true_iff. destruct H5 as [H5|H5].
-      * rewrite orb_true_iff in H5. destruct H5 as [H5|H5]; [right; exact H5 | left; rewrite H5; apply orb_true_r].
-      * left. rewrite H5. reflexivity.
-    + apply orb_true_r.
-  - rewrite !andb_true_iff. intros ((((H1 & H2) & H3) & H4) & H5). rewrite H3, orb_true_r. repeat split; assumption.
+    rewrite orb_true_iff in H5. rewrite orb_true_iff. destruct H5 as [H5|H5].
+    + rewrite orb_true_iff in H5. destruct H5 as [H5|H5]; [right; exact H5 | left; rewrite H5; apply orb_true_r].
+    + left. rewrite H5. reflexivity.
+  - rewrite !andb_true_iff. intros ((((H1 & H2) & H3) & H4) & H5). repeat split; assumption.
   - intros H; exact H.
   - destruct (is_union d); [reflexivity | intros H; exact H].
   - rewrite !andb_true_iff. intros ((((H1 & H2) & H3) & H4) & H5). repeat split; assumption.
 Qed.
 
-(* ---- the defect of the pinned derive: a padded #[repr(C)] struct called `TypeWithoutPadding` is
-   accepted by derive(Pod) and derive(NoUninit) although it has a padding byte ---- *)
+(* ---- the defect the pinned derive had: a padded #[repr(C)] struct called `TypeWithoutPadding`
+   passed the padding assertion of derive(Pod) / derive(NoUninit) although it has a padding byte ---- *)
 Definition capture_witness : sdef :=
   mkSD KNamed true false 0 0 false true false
        [mkSF 1 1 true true true true false false false; mkSF 2 2 true true true true false false false].
@@ -190,6 +193,8 @@ Definition capture_witness : sdef :=
 Theorem padding_name_capture_refuted :
   let sz := lc_size (layout_C 0 0 (map to_fld (sd_fields capture_witness))) in
   sz = 4 /\ total_size capture_witness = 3 /\
-  derive_accepts DPod capture_witness sz = true /\ contract_ok DPod capture_witness sz = false /\
-  derive_accepts DNoUninit capture_witness sz = true /\ contract_ok DNoUninit capture_witness sz = false.
+  padding_assert_passes_pinned capture_witness sz = true /\ contract_ok DPod capture_witness sz = false /\
+  contract_ok DNoUninit capture_witness sz = false /\
+  (* the repaired assertion refuses it *)
+  derive_accepts DPod capture_witness sz = false /\ derive_accepts DNoUninit capture_witness sz = false.
 Proof. repeat split; vm_compute; reflexivity. Qed.
